@@ -292,7 +292,7 @@ var fatalRe = regexp.MustCompile(`(?m)^(fatal error: .*|panic: .*|runtime: .*exc
 func fatalKey(tail string) string {
 	if m := fatalRe.FindString(tail); m != "" {
 		// strip addresses / numbers that vary
-		m = regexp.MustCompile(`0x[0-9a-f]+|\d{3,}`).ReplaceAllString(m, "N")
+		m = regexp.MustCompile(`0x[0-9a-f]+|\d+`).ReplaceAllString(m, "N") // (all numbers: "case 41" and "case 206" are one finding)
 		site := PanicKey(tail)
 		return sanitize(m) + "/" + site
 	}
